@@ -150,7 +150,7 @@ HISTORY = {
     'C03_R': 'not caught: the rewrite a (1/f - 1) / (1/f) of the semi-minor axis equals a (1 - f) for every finite inverse flattening; it differs only for 1/f = infinity (a sphere), which was judged outside "arbitrary (a, 1/f)"',
     'C04_P': 'UNDECIDED at first; caught after numpy.isclose / math.isclose were modelled as the ordering tests they are',
     'C04_Q': 'missed at first; caught by the binding rule of angular_typecheck (order-aware resolution of module-level names: a later def shadows an import)',
-    'C05_P': 'not caught: numpy.float32 arguments passed through unconverted - an argument TYPE outside what the static model types (numbers are reals)',
+    'C05_P': 'missed at first (numbers of the static model are reals: float32 arithmetic is outside it); caught by the float contract of angular_typecheck (every path returns obj.dec() or float(angle), never the argument itself)',
     'C06_Q': 'missed at first; caught after in-place array updates kept their aliases (b = a; b *= s changes a)',
     'C07_P': 'first only C11; C07 now runs the negation-pair rule over the catalogue (clause 2 quantifies over every shipped set and its negation)',
     'C08_P': 'missed at first; caught by the method value table (DMS / DDM objects built from constant fields, a minutes field of 60 included)',
